@@ -82,7 +82,7 @@ def to_coq(c, o):
         # the representation / decider could not even be constructed: compare with the model's validate
         res = o["construct"].get("res", {})
         return (f"KRep {grammars.c_decl(c['decl'])} {c_rkind(c['rep'], {})} RCreate [] "
-                f"(mkRO (PErr {cerr(res.get('exc', 'OtherError'))}) None [] [] [] [])")
+                f"(mkRO (PErr {cerr(res.get('exc', 'OtherError'))}) None [] [] [] [] true)")
     rec = o["rec"]
     op = rec["op"]
     ins = rec["inputs"]
@@ -91,7 +91,7 @@ def to_coq(c, o):
     exp = rec.get("expanding_before")
     ictx = clist(f"({cz(a)}, {cz(b)})" for a, b in rec.get("in_ctx", []))
     robs = (f"(mkRO {c_rout(op, rec['res'])} {copt(exp if isinstance(exp, bool) else None, cbool)} {ictx} {clist(map(cn, rec['changed']))} "
-            f"{sy.c_altsobs(rec['alts_before'])} {sy.c_altsobs(rec['alts_after'])})")
+            f"{sy.c_altsobs(rec['alts_before'])} {sy.c_altsobs(rec['alts_after'])} {cbool(rec.get('grammar_same', True))})")
     return f"KRep {grammars.c_decl(c['decl'])} {c_rkind(c['rep'], o['info'])} {ropc} {sy.c_draws(rec['consumed'])} {robs}"
 
 
@@ -101,7 +101,7 @@ def describe(c, o):
     rec = o["rec"]
     return ("classes:\n" + grammars.source(c["decl"])[len(grammars.HEADER):] + f"start=C{c['decl']['start']} representation={c['rep']} shared seed={c.get('seed')} operation #{c.get('index')} {rec['op']} of {c.get('ops')} "
             f"inputs={json.dumps(rec['inputs'])[:500]} -> {json.dumps(rec['res'])[:600]} ; drew {len(rec['consumed'])} answers from the shared source; earlier genotypes changed: {rec['changed']} (extended: {rec['extended']}); "
-            f"productions before={rec['alts_before']} after={rec['alts_after']}")
+            f"productions before={rec['alts_before']} after={rec['alts_after']}" + (f" ; grammar attributes changed: {json.dumps(rec['grammar_diff'])[:600]}" if rec.get("grammar_diff") else ""))
 
 
 # ------------------------------------------------------------------ generators
@@ -203,6 +203,35 @@ def gen_cases(r, tier, n_random=8):
         d = grammars.gen_decl(r, {"weights": False, "tuples": True, "dependent": False})
         for rep in r.sample(rep_specs(r), 2):
             cases.append({"op": "rep", "decl": d, "rep": rep, "seed": r.randrange(10**6), "ops": gen_ops(r, 6)})
+    return cases
+
+
+def variation_family():
+    """hierarchies for the representation-level parts of C01 / C10: same-typed fields that are not adjacent,
+    a float field, an abstract symbol that is mentioned but has no production among the supplied classes"""
+    FLOAT = ["base", "float"]
+    return [
+        H([A(), P(0, INT), P(0, INT, S(0), INT), P(0, S(0), BOOL, S(0))]),
+        # concrete start symbols: the stack machine stops at the first program of the start symbol, so only a concrete
+        # start symbol makes it build anything but the shallowest production
+        H([A(), P(0, INT), P(0, INT, S(0), INT), P(0, S(0), BOOL, S(0))], start=2),
+        H([A(), P(0, BOOL), P(0, S(0), S(0)), P(0, BOOL, S(1), INT, S(2), BOOL)], start=3),
+        H([A(), P(0, FLOAT), P(0, INT, S(0)), P(0, S(0), S(3), S(0)), A(), P(4, BOOL), P(4, INT, S(4), INT)]),
+        dict(H([A(), P(0, INT), P(0, S(3), S(0), S(0)), A(), P(3, BOOL)]), considered=[0, 1, 2, 3]),     # C3 is mentioned, its only subclass C4 is not supplied
+        dict(H([A(), P(0, BOOL), P(0, S(0), S(3)), A(None, True), P(3, INT)]), considered=[0, 1, 2, 3]),
+    ]
+
+
+def gen_variation_cases(r, tier):
+    big = tier == "thorough"
+    cases = []
+    for d in variation_family() + decl_family()[:2]:
+        for rep in rep_specs(r, max_depth=r.randrange(3, 6)):
+            for _ in range(2 if not big else 6):
+                cases.append({"op": "rep", "decl": d, "rep": rep, "seed": r.randrange(10**6), "ops": gen_ops(r, 8 if not big else 14)})
+    breed = H([A(), P(0, INT), P(0, S(0), S(0)), P(0, INT, S(2), INT)], start=2)
+    for dec in (["max", 4], ["pi", 5]):
+        cases.append({"op": "rep", "decl": breed, "rep": {"kind": "tree", "decider": dec}, "seed": r.randrange(10**6), "ops": breeding_ops(6 if not big else 12)})
     return cases
 
 
